@@ -50,6 +50,7 @@ Inductive mkind :=
 
 Inductive agg :=
 | ATerms (f : nat) (size : option N) (mdc : N) (missing : option Z) (subs : list agg)
+| ARare (f : nat) (maxc : N) (size : option N) (subs : list agg)      (* rare_terms *)
 | ARange (f : nat) (ranges : list (option Z * option Z)) (missing : option Z) (subs : list agg)
 | AHist (f : nat) (interval offset : Z) (mdc : N) (bounds : option (Z * Z)) (missing : option Z) (subs : list agg)
 | AFilter (flt : filt) (subs : list agg)
@@ -107,6 +108,7 @@ Definition keys_of (a : agg) (d : doc) : list Z :=
       | [] => match missing with Some m => [m] | None => [] end
       | l => l
       end
+  | ARare f _ _ _ => kwv d f
   | ARange f rs missing _ => range_keys rs 0 (mvals f missing d)
   | AHist f interval offset _ _ missing _ => map (bkey interval offset) (mvals f missing d)
   | AFilter flt _ => if passes flt d then [0] else []
@@ -124,7 +126,7 @@ Definition base_keys (a : agg) : list Z :=
 
 Definition subs_of (a : agg) : list agg :=
   match a with
-  | ATerms _ _ _ _ s | ARange _ _ _ s | AHist _ _ _ _ _ _ s | AFilter _ s => s
+  | ATerms _ _ _ _ s | ARare _ _ _ s | ARange _ _ _ s | AHist _ _ _ _ _ _ s | AFilter _ s => s
   | _ => []
   end.
 
@@ -166,7 +168,7 @@ Fixpoint summ (a : agg) (docs : list doc) {struct a} : inter :=
       | MPercentiles _ | MRanks _ => IVals (zsort vs)
       end
   | ACard keyword f => ISet (zset (flat_map (fun d => if keyword then kwv d f else numv d f) docs))
-  | ATerms _ _ _ _ subs | ARange _ _ _ subs | AHist _ _ _ _ _ _ subs | AFilter _ subs =>
+  | ATerms _ _ _ _ subs | ARare _ _ _ subs | ARange _ _ _ subs | AHist _ _ _ _ _ _ subs | AFilter _ subs =>
       IBuckets
         (map (fun k =>
                 let dk := filter (has_key a k) docs in
@@ -226,6 +228,7 @@ Fixpoint merge (a : agg) (x y : inter) {struct a} : inter :=
   | AMetric _ _ _, IVals l1, IVals l2 => IVals (zsort (l1 ++ l2))
   | ACard _ _, ISet l1, ISet l2 => ISet (zset (l1 ++ l2))
   | ATerms _ _ _ _ subs, IBuckets b1, IBuckets b2
+  | ARare _ _ _ subs, IBuckets b1, IBuckets b2
   | ARange _ _ _ subs, IBuckets b1, IBuckets b2
   | AHist _ _ _ _ _ _ subs, IBuckets b1, IBuckets b2
   | AFilter _ subs, IBuckets b1, IBuckets b2 =>
@@ -265,6 +268,17 @@ Fixpoint tinsert (x : Z * N * list resp) (l : list (Z * N * list resp)) :=
   end.
 Definition tsort (l : list (Z * N * list resp)) := fold_right tinsert [] l.
 
+(** rare_terms order: doc_count ascending, then key ascending *)
+Definition rle (a b : Z * N * list resp) : bool :=
+  let '(ka, na, _) := a in let '(kb, nb, _) := b in
+  (na <? nb)%N || ((na =? nb)%N && (ka <=? kb)).
+Fixpoint rinsert (x : Z * N * list resp) (l : list (Z * N * list resp)) :=
+  match l with
+  | [] => [x]
+  | y :: l' => if rle x y then x :: l else y :: rinsert x l'
+  end.
+Definition rsort (l : list (Z * N * list resp)) := fold_right rinsert [] l.
+
 Definition odef (o : option Z) : Z := match o with Some x => x | None => 0 end.
 
 (** exact-mode percentile of a sorted list: value * 100 (linear interpolation at p (n-1) / 100) *)
@@ -297,6 +311,7 @@ Definition rkey (a : agg) (k : Z) : Z :=
 Definition keep (a : agg) (n : N) : bool :=
   match a with
   | ATerms _ _ mdc _ _ => (mdc <=? n)%N
+  | ARare _ maxc _ _ => (0 <? n)%N && (n <=? maxc)%N
   | AHist _ _ _ mdc _ _ _ => (mdc <=? n)%N
   | _ => true
   end.
@@ -305,6 +320,9 @@ Definition arrange (a : agg) (bs : list (Z * N * list resp)) : list (Z * N * lis
   match a with
   | ATerms _ size _ _ _ =>
       let s := tsort bs in
+      match size with Some n => firstn (N.to_nat n) s | None => s end
+  | ARare _ _ size _ =>
+      let s := rsort bs in
       match size with Some n => firstn (N.to_nat n) s | None => s end
   | _ => bs
   end.
@@ -325,6 +343,7 @@ Fixpoint finalize (a : agg) (x : inter) {struct a} : resp :=
   | AMetric (MRanks ts) _ _, IVals l => RQ (map (prank l) ts)
   | ACard _ _, ISet l => RCount (nlen l)
   | ATerms _ _ _ _ subs, IBuckets bs
+  | ARare _ _ _ subs, IBuckets bs
   | ARange _ _ _ subs, IBuckets bs
   | AHist _ _ _ _ _ _ subs, IBuckets bs
   | AFilter _ subs, IBuckets bs =>
@@ -367,7 +386,7 @@ Fixpoint spec (a : agg) (docs : list doc) {struct a} : resp :=
       | MRanks ts => RQ (map (prank (zsort vs)) ts)
       end
   | ACard keyword f => RCount (nlen (zset (flat_map (fun d => if keyword then kwv d f else numv d f) docs)))
-  | ATerms _ _ _ _ subs | ARange _ _ _ subs | AHist _ _ _ _ _ _ subs | AFilter _ subs =>
+  | ATerms _ _ _ _ subs | ARare _ _ _ subs | ARange _ _ _ subs | AHist _ _ _ _ _ _ subs | AFilter _ subs =>
       RBuckets
         (arrange a
            (map (fun k =>
@@ -432,7 +451,7 @@ Record case := { k_aggs : list agg; k_segs : list (list doc); k_obs : list resp 
 Fixpoint wf_agg (a : agg) : bool :=
   match a with
   | AHist _ interval _ _ _ _ subs => (0 <? interval) && forallb wf_agg subs
-  | ATerms _ _ _ _ subs | ARange _ _ _ subs | AFilter _ subs => forallb wf_agg subs
+  | ATerms _ _ _ _ subs | ARare _ _ _ subs | ARange _ _ _ subs | AFilter _ subs => forallb wf_agg subs
   | _ => true
   end.
 
